@@ -93,3 +93,25 @@ def run(ctx, res):
                        "type, no non-null input cycle, a query root) holds by construction of the generator",
                        "fault side judges exactly the contrapositive (>= 1 diagnostic, from the extension resolver or the checker); which "
                        "diagnostic is recorded, not judged"]
+
+
+def selftest(ctx):
+    """Binding demonstration: corrupt the recorded observation of one valid and one fault event; both must be rejected."""
+    vlib.build_harness()
+    valid = valid_cases(ctx, 2)
+    base = valid[0]
+    m = TG.inject(base["model"], "dup-field", 0)
+    cases = [{k: v for k, v in base.items() if k != "model"},
+             {"id": "f", "mode": "fault", "files": TG.split_files(m, vlib.Rng(7), 2), "fault": {"operator": "dup-field", "site": 0, "model": 1},
+              "base": base["files"], "baseId": base["id"]}]
+    vlib.write_ndjson(ctx.path("cases.ndjson"), cases)
+    vlib.run_harness(["checkschema", ctx.path("cases.ndjson"), ctx.path("events.ndjson")])
+    ev = vlib.read_ndjson(ctx.path("events.ndjson"))
+    ev[0]["out"] = {"k": "ok", "diags": [{"msg": "invented", "line": 0, "col": 0, "file": 0}]}      # a diagnostic on a valid schema
+    ev[1]["out"] = {"k": "ok", "diags": []}                                                             # the fault's diagnostic removed
+    o = vlib.validate_trace("Trace_C05", "Trace_C05.cfg", ev, workdir=ctx.work, nshards=1)
+    got = sorted(i["cls"] for i in o.items)
+    ok = got == ["false-alarm", "missed-violation"]
+    print("SELFTEST C05: corrupted 2 events, items %s -> %s" % (got, "ok" if ok else "FAILED"))
+    ctx.cleanup()
+    return 0 if ok else 2
